@@ -451,6 +451,29 @@ func runProbes(led jsonLedger, rec *recorder, sp childSpec, system *core.System)
 				return err
 			}
 		}
+		// the node's own StatusList2021 consumer, reached the way a client application reaches it: verifying a credential whose
+		// credentialStatus points to the URL (the status is looked up before issuer trust and signature are)
+		{
+			slTarget := strings.Replace(o.URL, "/TOKEN", tok+"sl", 1)
+			cred := map[string]any{
+				"@context":          []string{"https://www.w3.org/2018/credentials/v1", "https://w3id.org/vc/status-list/2021/v1"},
+				"id":                fmt.Sprintf("did:web:partner.zorgnetwerk.nl#vc-%d", i),
+				"type":              []string{"VerifiableCredential"},
+				"issuer":            "did:web:partner.zorgnetwerk.nl",
+				"issuanceDate":      "2024-01-01T00:00:00Z",
+				"credentialSubject": map[string]any{"id": "did:web:client.zorgnetwerk.nl"},
+				"credentialStatus": map[string]any{"id": slTarget + "#5", "type": "StatusList2021Entry", "statusPurpose": "revocation",
+					"statusListIndex": "5", "statusListCredential": slTarget},
+				"proof": map[string]any{"type": "JsonWebSignature2020", "proofPurpose": "assertionMethod", "created": "2024-01-01T00:00:00Z",
+					"verificationMethod": "did:web:partner.zorgnetwerk.nl#0", "jws": "eyJhbGciOiJFUzI1NiIsImI2NCI6ZmFsc2UsImNyaXQiOlsiYjY0Il19..c2ln"},
+			}
+			m := rec.mark()
+			st, body, err := post(base+"/internal/vcr/v2/verifier/vc", "POST", map[string]any{"verifiableCredential": cred})
+			if err == nil && st != 0 {
+				// OK stays false: the API's answer is about the credential, what is judged is which requests left the node
+				led.put(ledgerLine{Ev: "probe", Probe: "outbound", Class: o.Class, Via: "api.VerifyVC/StatusList2021", URL: slTarget, Status: st, Err: short(body), Attempts: rec.since(m)})
+			}
+		}
 		try("client.New", get(client.New(10*time.Second)))
 		try("client.NewWithCache", get(client.NewWithCache(10*time.Second)))
 		try("client.NewWithTLSConfig", get(client.NewWithTLSConfig(10*time.Second, &tls.Config{InsecureSkipVerify: true})))
